@@ -489,6 +489,35 @@ fn gen_free(r: &mut Rng, nworkers: usize, nops: usize, tight: bool) -> FreeCase 
     FreeCase { nshared, prelude, workers, postlude }
 }
 
+/// Bursts: every worker emits `nevents` events (outside any span, or inside one span of its own when
+/// `in_span`), all workers released together; the main thread does nothing before or after, so the
+/// very last callback the layer receives is some worker's event.
+fn gen_burst(r: &mut Rng, nworkers: usize, nevents: usize, in_span: bool) -> FreeCase {
+    let workers = (0..nworkers)
+        .map(|w| {
+            let t = w + 1;
+            let (mut seq, mut eseq) = (0u128, 0u128);
+            let mut ops = vec![];
+            if in_span {
+                ops.push(Op::NewSpan(1, ParentKind::Ctx, mark(t, &mut seq)));
+                ops.push(Op::Enter(0));
+            }
+            for _ in 0..nevents {
+                ops.push(Op::Event(*r.pick(&[4usize, 6]), ParentKind::Ctx, mark(t, &mut eseq)));
+            }
+            if in_span {
+                // leave the span before the last event: the execution still ends with an event
+                let last = ops.pop().expect("event");
+                ops.push(Op::Exit(0));
+                ops.push(Op::Drop(0));
+                ops.push(last);
+            }
+            ops
+        })
+        .collect();
+    FreeCase { nshared: 0, prelude: vec![], workers, postlude: vec![] }
+}
+
 fn remap(op: &Op, f: &dyn Fn(usize) -> usize) -> Op {
     let pk = |p: &ParentKind| match p {
         ParentKind::Explicit(k) => ParentKind::Explicit(f(*k)),
@@ -592,13 +621,32 @@ fn run_free(c: &FreeCase, filter: &FilterSpec) -> Option<(String, usize, usize)>
 }
 
 fn free_case(sink: &mut Sink, idx: u64, kind: &str, c: &FreeCase, filter: &FilterSpec) {
+    free_case_rounds(sink, idx, kind, c, filter, 1);
+}
+
+/// `rounds` > 1: the same execution is repeated on fresh storages; a cheap scan (number of captured
+/// items against the number the unfiltered program emits) selects the run handed to the judge: the
+/// first one that looks wrong, otherwise the last one.
+fn free_case_rounds(sink: &mut Sink, idx: u64, kind: &str, c: &FreeCase, filter: &FilterSpec, rounds: usize) {
     if !sink.wants(idx) {
         return;
     }
     let prog = linearize(c);
     let key = format!("{} {:?}", cprog(&prog), filter);
+    let emitted_spans = prog.ops.iter().filter(|(_, o)| matches!(o, Op::NewSpan(..))).count();
+    let emitted_events = prog.ops.iter().filter(|(_, o)| matches!(o, Op::Event(..))).count();
     intern_begin();
-    let dump = run_free(c, filter);
+    let mut dump = run_free(c, filter);
+    let mut rounds_run = 1u64;
+    let unfiltered = matches!(filter, FilterSpec::Unfiltered);
+    while (rounds_run as usize) < rounds
+        && dump.as_ref().is_some_and(|d| !unfiltered || (d.1 == emitted_spans && d.2 == emitted_events))
+    {
+        intern_begin();
+        dump = run_free(c, filter);
+        rounds_run += 1;
+    }
+    sink.bump_by("free:rounds", rounds_run);
     let (ns, ne) = dump.as_ref().map_or((0, 0), |d| (d.1, d.2));
     let nthreads = c.workers.len() + 1;
     let term = format!(
@@ -712,13 +760,27 @@ pub fn run(o: &Opts) {
         idx += 1;
     }
 
+    // 4. bursts of events ending the execution (nothing follows the workers' last callbacks)
+    let n_burst = if o.thorough { 600 } else { 30 } * o.scale;
+    for i in 0..n_burst {
+        if sink.wants(idx) {
+            let mut r = Rng::for_case(o.seed, "C19-burst", idx);
+            let nworkers = *r.pick(&[4usize, 8, 8, 12]);
+            let nevents = r.range(5, 40);
+            let case = gen_burst(&mut r, nworkers, nevents, i % 3 == 2);
+            free_case_rounds(&mut sink, idx, "burst", &case, &FilterSpec::Unfiltered, if o.thorough { 120 } else { 60 });
+        }
+        idx += 1;
+    }
+
     sink.finish(
         "one case = one execution of 2..=16 real OS threads sharing one subscriber. sched-*: the threads take turns in the order of \
          the generated (thread, op) sequence, any thread may use any span; Registry + recording layer (callback trace with the \
          calling thread's lookup_current, against the Registry model with per-thread stacks) or Registry + CaptureLayer with a \
          filter (storage against layer model, specification and structural laws). free: free-running workers between barriers on \
          independent programs over their own spans and spans shared by the main thread (explicit parents, follows-from targets, \
-         enters), tight create / emit loops in two cases out of three; per-thread views of the storage against the model and the \
+         enters), tight create / emit loops in two cases out of three; bursts: workers that only emit events, released together, \
+         nothing before or after them, repeated on fresh storages (a count scan selects the run that is judged); per-thread views of the storage against the model and the \
          specification on one linearization, structural laws, nothing unmarked. non-trivial = the trace has at least two callbacks \
          resp. the storage holds at least one item; distinct = distinct canonical execution (and filter) text",
         serde_json::json!({ "call_sites_built": sites_built() }),
